@@ -57,8 +57,10 @@ def strategy(tier):
     # one universe placed in several containers under related
     # transformations (equal, turned, mirrored): every copy is located
     # through its own frame
-    return with_options(st.one_of(hier, hier, hier, hier,
-                                  gen_hier.twin_fill_case(tier, mirrors=True)))
+    return with_options(st.one_of(hier, hier, hier, hier, hier, hier,
+                                  gen_hier.twin_fill_case(tier, mirrors=True),
+                                  gen_hier.twin_fill_case(tier, mirrors=True),
+                                  gen_hier.neg_universe_case(tier)))
 
 
 def budget(tier):
